@@ -178,9 +178,9 @@ def run(ctx, pid):
         t = ctx.tmp("%s.ndjson" % name)
         p = ctx.run([exe, name, "3" if quick else "20", t], timeout=900)
         rs = json.loads(p.stdout.strip().splitlines()[-1])
-        return name, rs, judge(ctx, lock, "fifo-" + name, "fifo", 0, t, timeout=3000)
+        return name, rs, judge(ctx, lock, "wit-" + name, "prio" if name == "upriorace" else "fifo", 0, t, timeout=3000)
 
-    wfuts = [pool.submit(witness, n) for n in ("segrace", "segrace2")]
+    wfuts = [pool.submit(witness, n) for n in ("segrace", "segrace2", "upriorace")]
 
     # ------------------------------------------------------------------ 2. free-running histories, all kinds
     nh = 100 if quick else 1200
@@ -275,7 +275,7 @@ def run(ctx, pid):
         ctx.log("witness %-8s: %d rounds, messages lost in %d | histories %d strict %d relaxed %s"
                 % (name, rs["rounds"], rs["lost"], j.n, j.strict, dict(j.relaxed)))
         samples.append({"witness": name, "result": rs})
-        account("seg", j, "replay of the Seg.tla counterexample schedule '%s' on the real segmented mailbox" % name)
+        account("uprio" if name == "upriorace" else "seg", j, "replay of the hand-translated witness schedule '%s' on the real mailbox" % name)
     asis = f_mpsc_asis.result()
     if ctx.is_known("TransientEmpty:mpsc") and asis.violated != "NeverEmptyWhileCompleted":
         raise vlib.Infra("stale finding: Mpsc.tla with Defects={TransientEmpty} no longer violates NeverEmptyWhileCompleted")
